@@ -152,12 +152,12 @@ func ParseRtpHeader(b []byte) (h RtpHeader, err error) {
 		extensionLength := bele.BeUint16(b[offset:])
 		offset += 2
 
-		if offset+int(4*extensionLength) > len(b) {
+		if offset+4*int(extensionLength) > len(b) {
 			return h, base.ErrRtpRtcpShortBuffer
 		}
 
-		h.Extensions = b[offset : offset+int(4*extensionLength)]
-		offset += int(4 * extensionLength)
+		h.Extensions = b[offset : offset+4*int(extensionLength)]
+		offset += 4 * int(extensionLength)
 	}
 
 	if offset >= len(b) {
@@ -168,6 +168,10 @@ func ParseRtpHeader(b []byte) (h RtpHeader, err error) {
 
 	if h.Padding == 1 {
 		h.paddingLength = int(b[len(b)-1])
+		// padding不能覆盖到header，并且必须至少留下一个字节的payload，否则Body()会越界
+		if offset+h.paddingLength >= len(b) {
+			return h, base.ErrRtpRtcpShortBuffer
+		}
 	}
 	return
 }
